@@ -366,7 +366,8 @@ func c19Oracle(in c19In) probe.Outcome {
 	held := append(message.IKEPayloadContainer(nil), c...)
 	var want *model.Payload // expected model of the appended payload
 	var berr error          // error returned by the builder (those that return one)
-	oversize := false       // an argument exceeds what the encoding can hold
+	oversize := false       // an argument exceeds what a wire field can hold: an error is REQUIRED (builder or Encode)
+	mayError := false       // not encodable on its own (no children yet / empty data): an error is allowed
 	var returned message.IKEPayload
 	ip := fmt.Sprintf("%d.%d.%d.%d", in.IP[0], in.IP[1], in.IP[2], in.IP[3])
 	perr := probe.Try(func() error {
@@ -378,30 +379,30 @@ func c19Oracle(in c19In) probe.Outcome {
 		case "Certificate":
 			c.BuildCertificate(in.U8a, cp(in.B1))
 			want = &model.Payload{Kind: model.KCERT, Cert: &model.Cert{Encoding: in.U8a, Data: in.B1}}
-			oversize = 5+len(in.B1) > 65535 || len(in.B1) == 0
+			oversize, mayError = 5+len(in.B1) > 65535, len(in.B1) == 0
 		case "Encrypted":
 			returned = c.BuildEncrypted(message.IkePayloadType(in.U8a), cp(in.B1))
 			want = &model.Payload{Kind: model.KRaw, Raw: &model.Raw{Type: 46, Body: in.B1}, Data: model.Bytes{in.U8a}}
 		case "KeyExchange":
 			c.BUildKeyExchange(in.U16a, cp(in.B1))
 			want = &model.Payload{Kind: model.KKE, KE: &model.KE{Group: in.U16a, Data: in.B1}}
-			oversize = 8+len(in.B1) > 65535 || len(in.B1) == 0
+			oversize, mayError = 8+len(in.B1) > 65535, len(in.B1) == 0
 		case "IDi":
 			c.BuildIdentificationInitiator(in.U8a, cp(in.B1))
 			want = &model.Payload{Kind: model.KIDi, ID: &model.ID{Type: in.U8a, Data: in.B1}}
-			oversize = 8+len(in.B1) > 65535 || len(in.B1) == 0
+			oversize, mayError = 8+len(in.B1) > 65535, len(in.B1) == 0
 		case "IDr":
 			c.BuildIdentificationResponder(in.U8a, cp(in.B1))
 			want = &model.Payload{Kind: model.KIDr, ID: &model.ID{Type: in.U8a, Data: in.B1}}
-			oversize = 8+len(in.B1) > 65535 || len(in.B1) == 0
+			oversize, mayError = 8+len(in.B1) > 65535, len(in.B1) == 0
 		case "Authentication":
 			c.BuildAuthentication(in.U8a, cp(in.B1))
 			want = &model.Payload{Kind: model.KAUTH, Auth: &model.Auth{Method: in.U8a, Data: in.B1}}
-			oversize = 8+len(in.B1) > 65535 || len(in.B1) == 0
+			oversize, mayError = 8+len(in.B1) > 65535, len(in.B1) == 0
 		case "Configuration":
 			returned = c.BuildConfiguration(in.U8a)
 			want = &model.Payload{Kind: model.KCP, CP: &model.CP{Type: in.U8a}}
-			oversize = true // no attributes yet: not encodable on its own
+			mayError = true // no attributes yet: not encodable on its own
 		case "Nonce":
 			c.BuildNonce(cp(in.B1))
 			want = &model.Payload{Kind: model.KNonce, Data: in.B1}
@@ -409,11 +410,11 @@ func c19Oracle(in c19In) probe.Outcome {
 		case "TSi":
 			returned = c.BuildTrafficSelectorInitiator()
 			want = &model.Payload{Kind: model.KTSi, TS: &model.TS{}}
-			oversize = true
+			mayError = true
 		case "TSr":
 			returned = c.BuildTrafficSelectorResponder()
 			want = &model.Payload{Kind: model.KTSr, TS: &model.TS{}}
-			oversize = true
+			mayError = true
 		case "SecurityAssociation":
 			returned = c.BuildSecurityAssociation()
 			want = &model.Payload{Kind: model.KSA, SA: &model.SA{}}
@@ -468,7 +469,10 @@ func c19Oracle(in c19In) probe.Outcome {
 		return probe.Fail("%s: %v", in.Builder, perr)
 	}
 	if oversize {
-		labels = append(labels, "oversize/unencodable")
+		labels = append(labels, "oversize")
+	}
+	if mayError {
+		labels = append(labels, "unencodable-alone")
 	}
 	// earlier payloads: same objects, unchanged
 	for i := range held {
@@ -508,6 +512,9 @@ func c19Oracle(in c19In) probe.Outcome {
 		return probe.Outcome{NonTrivial: true, Labels: labels} // its encoding is C06's business
 	}
 	wire, werr := c19Wire(newp)
+	if werr == nil && oversize {
+		return probe.Fail("%s: an oversize argument was accepted: neither the builder nor Encode reports an error (the field was truncated or wrapped)", in.Builder)
+	}
 	switch {
 	case werr == nil:
 		if !bytes.Equal(model.JSON(wire.Normalize()), model.JSON(want.Normalize())) {
@@ -518,7 +525,7 @@ func c19Oracle(in c19In) probe.Outcome {
 		return probe.Fail("%s: %v", in.Builder, werr)
 	case probe.IsPanic(werr):
 		return probe.Fail("%s: encoding the appended payload panics: %v", in.Builder, werr)
-	case !oversize:
+	case !oversize && !mayError:
 		return probe.Fail("%s: encoding the appended payload fails although the arguments are within the limits: %v", in.Builder, werr)
 	default:
 		labels = append(labels, "encode-error")
